@@ -148,6 +148,8 @@ def _loop_class(lp, f):
         return ('class', it[len('range(self.'):-len('.size())')])
     if it.startswith('range(len(self.') and it.endswith('))'):
         return ('class', it[len('range(len(self.'):-2])
+    if it.startswith('self.') and it[5:].replace('_', '').isalnum() and it.endswith('_indices') and isinstance(lp.target, ast.Name):
+        return ('class', it[5:], 'direct')       # `for s in self.binomial_indices:` - the loop variable is the species index itself
     if it.startswith('range(') and it.endswith(')') and ',' not in it:
         bound = it[len('range('):-1]
         asg = simple_assigns(f)
@@ -239,7 +241,7 @@ def partition_element_view(ctx, mod, cls, f, klass, mode=None):
         if lc is None:
             raise AnalysisError('%s.partition: loop over %s not understood' % (cls, src(st.iter)))
         lv = src(st.target)
-        idx_names = {lv} if lc[0] == 'all' else {'self.%s[%s]' % (lc[1], lv)}
+        idx_names = {lv} if (lc[0] == 'all' or len(lc) > 2) else {'self.%s[%s]' % (lc[1], lv)}
         inner = []
         for b in st.body:
             if lc[0] == 'class' and isinstance(b, ast.Assign) and len(b.targets) == 1 and isinstance(b.targets[0], ast.Name) and \
